@@ -58,21 +58,21 @@ func fieldP() *fieldOps {
 	return &fieldOps{
 		name: "p", mod: c16P,
 		set: func(b []byte) (interface{}, error) {
-			e, err := new(SM2Element).SetBytes(b)
+			e, err := c16recvP().SetBytes(b)
 			if err != nil {
 				return nil, err
 			}
 			return e, nil
 		},
 		zero:   func() interface{} { return new(SM2Element) },
-		one:    func() interface{} { return new(SM2Element).One() },
-		add:    func(a, b interface{}) interface{} { return new(SM2Element).Add(E(a), E(b)) },
-		sub:    func(a, b interface{}) interface{} { return new(SM2Element).Sub(E(a), E(b)) },
-		mul:    func(a, b interface{}) interface{} { return new(SM2Element).Mul(E(a), E(b)) },
-		square: func(a interface{}) interface{} { return new(SM2Element).Square(E(a)) },
-		opp:    func(a interface{}) interface{} { return new(SM2Element).Opp(E(a)) },
-		invert: func(a interface{}) interface{} { return new(SM2Element).Invert(E(a)) },
-		sel:    func(a, b interface{}, c int) interface{} { return new(SM2Element).Select(E(a), E(b), c) },
+		one:    func() interface{} { return c16recvP().One() },
+		add:    func(a, b interface{}) interface{} { return c16recvP().Add(E(a), E(b)) },
+		sub:    func(a, b interface{}) interface{} { return c16recvP().Sub(E(a), E(b)) },
+		mul:    func(a, b interface{}) interface{} { return c16recvP().Mul(E(a), E(b)) },
+		square: func(a interface{}) interface{} { return c16recvP().Square(E(a)) },
+		opp:    func(a interface{}) interface{} { return c16recvP().Opp(E(a)) },
+		invert: func(a interface{}) interface{} { return c16recvP().Invert(E(a)) },
+		sel:    func(a, b interface{}, c int) interface{} { return c16recvP().Select(E(a), E(b), c) },
 		bytes:  func(a interface{}) []byte { return E(a).Bytes() },
 		toBig:  func(a interface{}) *big.Int { return E(a).ToBigInt() },
 		raw:    func(a interface{}) [4]uint64 { return [4]uint64(E(a).x) },
@@ -80,15 +80,15 @@ func fieldP() *fieldOps {
 		isZero: func(a interface{}) int { return E(a).IsZero() },
 		equal:  func(a, b interface{}) int { return E(a).Equal(E(b)) },
 		aliasMul: func(a interface{}) interface{} {
-			e := new(SM2Element).Set(E(a))
+			e := c16recvP().Set(E(a))
 			return e.Mul(e, e)
 		},
 		aliasAdd: func(a interface{}) interface{} {
-			e := new(SM2Element).Set(E(a))
+			e := c16recvP().Set(E(a))
 			return e.Add(e, e)
 		},
 		aliasSub: func(a, b interface{}) interface{} {
-			e := new(SM2Element).Set(E(b))
+			e := c16recvP().Set(E(b))
 			return e.Sub(E(a), e)
 		},
 	}
@@ -99,20 +99,20 @@ func fieldN() *fieldOps {
 	return &fieldOps{
 		name: "n", mod: c16N,
 		set: func(b []byte) (interface{}, error) {
-			e, err := new(SM2ScalarElement).SetBytes(b)
+			e, err := c16recvN().SetBytes(b)
 			if err != nil {
 				return nil, err
 			}
 			return e, nil
 		},
 		zero:   func() interface{} { return new(SM2ScalarElement) },
-		one:    func() interface{} { return new(SM2ScalarElement).One() },
-		add:    func(a, b interface{}) interface{} { return new(SM2ScalarElement).Add(E(a), E(b)) },
-		sub:    func(a, b interface{}) interface{} { return new(SM2ScalarElement).Sub(E(a), E(b)) },
-		mul:    func(a, b interface{}) interface{} { return new(SM2ScalarElement).Mul(E(a), E(b)) },
-		square: func(a interface{}) interface{} { return new(SM2ScalarElement).Square(E(a)) },
-		invert: func(a interface{}) interface{} { return new(SM2ScalarElement).Invert(E(a)) },
-		sel:    func(a, b interface{}, c int) interface{} { return new(SM2ScalarElement).Select(E(a), E(b), c) },
+		one:    func() interface{} { return c16recvN().One() },
+		add:    func(a, b interface{}) interface{} { return c16recvN().Add(E(a), E(b)) },
+		sub:    func(a, b interface{}) interface{} { return c16recvN().Sub(E(a), E(b)) },
+		mul:    func(a, b interface{}) interface{} { return c16recvN().Mul(E(a), E(b)) },
+		square: func(a interface{}) interface{} { return c16recvN().Square(E(a)) },
+		invert: func(a interface{}) interface{} { return c16recvN().Invert(E(a)) },
+		sel:    func(a, b interface{}, c int) interface{} { return c16recvN().Select(E(a), E(b), c) },
 		bytes:  func(a interface{}) []byte { return E(a).Bytes() },
 		toBig:  func(a interface{}) *big.Int { return E(a).ToBigInt() },
 		raw:    func(a interface{}) [4]uint64 { return [4]uint64(E(a).x) },
@@ -120,18 +120,33 @@ func fieldN() *fieldOps {
 		isZero: func(a interface{}) int { return E(a).IsZero() },
 		equal:  func(a, b interface{}) int { return E(a).Equal(E(b)) },
 		aliasMul: func(a interface{}) interface{} {
-			e := new(SM2ScalarElement).Set(E(a))
+			e := c16recvN().Set(E(a))
 			return e.Mul(e, e)
 		},
 		aliasAdd: func(a interface{}) interface{} {
-			e := new(SM2ScalarElement).Set(E(a))
+			e := c16recvN().Set(E(a))
 			return e.Add(e, e)
 		},
 		aliasSub: func(a, b interface{}) interface{} {
-			e := new(SM2ScalarElement).Set(E(b))
+			e := c16recvN().Set(E(b))
 			return e.Sub(E(a), e)
 		},
 	}
+}
+
+// Receivers hold GARBAGE before an operation writes them: the result may not depend on what the receiver held
+// (an early return that forgets to write it, an accumulation into it).
+var c16recvCtr uint64
+
+func c16garbage() [4]uint64 {
+	c := atomic.AddUint64(&c16recvCtr, 0x9e3779b97f4a7c15)
+	return [4]uint64{c ^ 0xdeadbeefcafef00d, c * 3, ^c, c>>1 | 1}
+}
+
+func c16recvP() *SM2Element { return &SM2Element{x: sm2MontgomeryDomainFieldElement(c16garbage())} }
+
+func c16recvN() *SM2ScalarElement {
+	return &SM2ScalarElement{x: sm2ScalarMontgomeryDomainFieldElement(c16garbage())}
 }
 
 func c16b32(v *big.Int) []byte {
